@@ -318,6 +318,22 @@ def run(ctx):
     ctx.cov["generated_programs"] = nprog
     process(ctx, items, labels, "generated", totals, shrink_budget=ctx.n(1, 2))
 
+    # ---- acyclic stream + directed cases (shared multi-clause subgoal re-called under a negation)
+    ndag = ctx.n(15, 200)
+    items, labels = [], []
+    for name, lines in cs.DIRECTED:
+        items.append(({"src": "\n".join(lines)}, ["default"] + ["perm:%d" % k for k in range(1, ctx.n(5, 13))], 20))
+        labels.append("directed:" + name)
+    for i in range(ndag):
+        lines, feats = cs.gen_dag_program(ctx.rng)
+        for ft in feats:
+            ctx.count("gen feature " + ft)
+        seeds = [ctx.rng.randrange(1, 2 ** 31) for _ in range(ctx.n(3, 8))]
+        items.append(({"src": "\n".join(lines)}, ["default"] + ["perm:%d" % s for s in seeds], 20))
+        labels.append("acyclic#%d" % i)
+    ctx.cov["acyclic_programs"] = ndag
+    process(ctx, items, labels, "acyclic", totals, shrink_budget=ctx.n(1, 2))
+
     run_model_tie(ctx)
     ctx.cov["schedule_exploration"] = {"batches_seen": totals["batches"], "all_e_batches": totals["all_e"],
                                        "batches_actually_permuted": totals["permuted"],
